@@ -37,17 +37,28 @@ static void do_hugecodec(size_t n) {
     printf("ok");
 }
 
+/* Ambient errno: before EVERY library call the harness plants one of these values, chosen from the text
+ * of the operation line (so a replay of the single operation plants the same value) and the number of
+ * the call inside the operation. No result may depend on the errno left behind by earlier, unrelated
+ * calls - the models have no ambient errno at all. */
+static const int AMBIENT[8] = {0, ENOMEM, ERANGE, EINTR, ENOENT, EINVAL, EAGAIN, ENOBUFS};
+static unsigned op_hash, op_call;
+static void plant_errno(void) { errno = AMBIENT[(op_hash + op_call++) % 8]; }
+
 int main(void) {
     char *line = NULL; size_t cap = 0; ssize_t len;
     harness_init();
     while ((len = getline(&line, &cap, stdin)) > 0) {
+        op_hash = 2166136261u; op_call = 0;
+        for (ssize_t i = 0; i < len; i++) if (line[i] != '\n' && line[i] != '\r') op_hash = (op_hash ^ (unsigned char) line[i]) * 16777619u;
+        op_hash ^= op_hash >> 15;
         char *w[MAXW]; int nw = split_words(line, w);
         if (nw == 0) continue;
         bytes_t a = {0, 0};
         if (nw == 2 && !strcmp(w[0], "hugecodec")) { do_hugecodec(strtoull(w[1], NULL, 10)); printf("\n"); fflush(stdout); continue; }
         if (nw >= 2 && !unhex(w[1], &a)) { printf("bad-hex %s\n", w[1]); continue; }
         const char *op = w[0];
-        errno = ENOMEM;   /* poison: no result may depend on the errno left by earlier, unrelated calls */
+        plant_errno();
         if (nw == 2 && (!strcmp(op, "urlenc") || !strcmp(op, "b64enc") || !strcmp(op, "hexenc"))) {
             char *e = op[0] == 'u' ? qurl_encode(a.p, a.n) : op[0] == 'b' ? qbase64_encode(a.p, a.n)
                                                                          : qhex_encode(a.p, a.n);
@@ -55,6 +66,7 @@ int main(void) {
         } else if (nw == 2 && (!strcmp(op, "urldec") || !strcmp(op, "b64dec") || !strcmp(op, "hexdec"))) {
             char *s = cstr_exact(&a);
             size_t l = strlen(s);
+            plant_errno();
             size_t n = op[0] == 'u' ? qurl_decode(s) : op[0] == 'b' ? qbase64_decode(s) : qhex_decode(s);
             show_dec(s, l, n); free(s);
         } else if (nw == 2 && (!strcmp(op, "urlrt") || !strcmp(op, "b64rt") || !strcmp(op, "hexrt"))) {
@@ -63,11 +75,13 @@ int main(void) {
             size_t l = strlen(e);
             puthex(stdout, e, l); printf(" ");
             char *s = malloc(l + 1); memcpy(s, e, l + 1); free(e);   /* exactly sized */
+            plant_errno();
             size_t n = op[0] == 'u' ? qurl_decode(s) : op[0] == 'b' ? qbase64_decode(s) : qhex_decode(s);
             show_dec(s, l, n); free(s);
         } else if (nw == 3 && !strcmp(op, "makeword")) {
             bytes_t st; unhex(w[2], &st);
             char *s = cstr_exact(&a);
+            plant_errno();
             char *word = _q_makeword(s, (char) st.p[0]);
             puthex(stdout, word, strlen(word)); printf(" "); puthex(stdout, s, strlen(s));
             free(word); free(s); free(st.p);
@@ -75,6 +89,7 @@ int main(void) {
             bytes_t eq, sep; unhex(w[2], &eq); unhex(w[3], &sep);
             char *s = cstr_exact(&a);
             int cnt = -1;
+            plant_errno();
             qlisttbl_t *t = qparse_queries(NULL, s, (char) eq.p[0], (char) sep.p[0], &cnt);
             printf("ok %d", cnt);
             /* entries in table order, top to bottom (the default walk direction is backward) */
@@ -84,6 +99,27 @@ int main(void) {
                 puthex(stdout, o->data, o->size ? o->size - 1 : 0);
             }
             t->free(t); free(s); free(eq.p); free(sep.p);
+        } else if (nw == 5 && !strcmp(op, "queryalias")) {
+            /* queryalias <query> <key> <eq> <sep>: a table with unique keys holds the query text under <key>;
+             * the text is parsed IN PLACE OF ITS STORAGE - qparse_queries(tbl, tbl->getstr(tbl, key, false), ...) -
+             * into the same table, so a pair that re-defines <key> frees the text being parsed unless the
+             * parser works on a private copy. */
+            bytes_t key, eq, sep;
+            if (!unhex(w[2], &key) || !unhex(w[3], &eq) || !unhex(w[4], &sep)) { printf("bad-op\n"); free(a.p); continue; }
+            char *s = cstr_exact(&a), *k = cstr_exact(&key);
+            qlisttbl_t *t = qlisttbl(QLISTTBL_UNIQUE);
+            t->putstr(t, k, s);
+            free(s);                                     /* only the table's copy is left */
+            const char *stored = t->getstr(t, k, false);
+            int cnt = -1;
+            plant_errno();
+            qparse_queries(t, stored, (char) eq.p[0], (char) sep.p[0], &cnt);
+            printf("ok %d", cnt);
+            for (qlisttbl_obj_t *o = t->first; o != NULL; o = o->next) {
+                printf(" "); puthex(stdout, o->name, strlen(o->name)); printf("=");
+                puthex(stdout, o->data, o->size ? o->size - 1 : 0);
+            }
+            t->free(t); free(k); free(key.p); free(eq.p); free(sep.p);
         } else {
             printf("bad-op");
         }
